@@ -5,6 +5,8 @@
 #include "real.hpp"
 
 #include <errno.h>
+#include <dlfcn.h>
+#include <functional>
 #include <map>
 #include <set>
 #include <vector>
@@ -27,10 +29,14 @@ namespace
     std::vector<Waiter*> waiters;
   };
 
+  struct OnceState { int state = 0; int owner = -1; VClock vc; };   // 0 not run, 1 running, 2 done
+  struct RwState { int writer = -1; std::set<int> readers; VClock vc_w, vc_r; bool has_w = false, has_r = false; };
   struct Model
   {
     std::map<const void*, MutexState> mtx;
     std::map<const void*, CondState> cond;
+    std::map<const void*, OnceState> once;
+    std::map<const void*, RwState> rw;
   };
   Model* M = nullptr;
   void (*g_sync_observer)(int what, const void* addr) = nullptr;
@@ -80,7 +86,7 @@ static inline bool is_recursive(const pthread_mutex_t* m)
   return (m->__data.__kind & 3) == PTHREAD_MUTEX_RECURSIVE_NP;
 }
 
-static int model_lock(pthread_mutex_t* m, bool try_only)
+static int model_lock(pthread_mutex_t* m, bool try_only, bool is_mutex = true)
 {
   yield("mutex_lock");   // scheduling point before the acquisition
   ModelGuard g;
@@ -88,7 +94,7 @@ static int model_lock(pthread_mutex_t* m, bool try_only)
   int me = self();
   if(s->owner == me)
   {
-    if(is_recursive(m)) { ++s->count; return 0; }
+    if(is_mutex && is_recursive(m)) { ++s->count; return 0; }
     if(try_only) return EBUSY;
     fail("DEADLOCK", "task relocks a non-recursive mutex it already owns: " + describe_tasks());
   }
@@ -268,6 +274,130 @@ extern "C"
       mark_joined(id);
     }
     return real::tab().join(th, rv);
+  }
+
+  // ---- pthread_once (std::call_once), reader-writer locks (std::shared_mutex), spin locks: not used by FEAT's threaded
+  // assembly today, modelled so that code which synchronises through them is scheduled and judged correctly
+  int pthread_once(pthread_once_t* c, void (*fn)(void))
+  {
+    typedef int (*once_t)(pthread_once_t*, void (*)(void));
+    static once_t real_once = (once_t)dlsym(RTLD_NEXT, "pthread_once");
+    if(!active() || !M) return real_once(c, fn);
+    yield("pthread_once");
+    {
+      ModelGuard g;
+      OnceState* o = &M->once[c];
+      if(o->state == 0 && *c != PTHREAD_ONCE_INIT) o->state = 2;   // completed before the simulation started
+      if(o->state == 1 && o->owner != self())
+      {
+        std::function<bool()> ready = [o]() { return o->state != 1; };
+        block_until(ready, "pthread_once");
+      }
+      if(o->state == 2) { if(!o->vc.empty()) vc_join(o->vc); return 0; }
+      if(o->state == 1) fail("DEADLOCK", "pthread_once called recursively from its own init routine: " + describe_tasks());
+      o->state = 1; o->owner = self();
+    }
+    fn();
+    {
+      ModelGuard g;
+      OnceState* o = &M->once[c];
+      o->vc = vclock();
+      vc_tick();
+      o->state = 2;
+      *c = 2;   // glibc's "done" state: calls outside the simulation must not run the routine again
+    }
+    yield("pthread_once_done");
+    return 0;
+  }
+
+  static int model_rw_lock(pthread_rwlock_t* l, bool write, bool try_only)
+  {
+    yield(write ? "rwlock_wrlock" : "rwlock_rdlock");
+    ModelGuard g;
+    RwState* s = &M->rw[l];
+    const int me = self();
+    if(s->writer == me || s->readers.count(me)) { if(try_only) return EBUSY; fail("DEADLOCK", "task relocks a reader-writer lock it already holds: " + describe_tasks()); }
+    auto free_for = [s, write]() { return s->writer == -1 && (!write || s->readers.empty()); };
+    if(!free_for())
+    {
+      if(try_only) return EBUSY;
+      std::function<bool()> ready = free_for;
+      block_until(ready, "rwlock");
+    }
+    if(write) { s->writer = me; if(s->has_r) vc_join(s->vc_r); }
+    else s->readers.insert(me);
+    if(s->has_w) vc_join(s->vc_w);
+    return 0;
+  }
+  int pthread_rwlock_rdlock(pthread_rwlock_t* l)
+  {
+    typedef int (*fn_t)(pthread_rwlock_t*); static fn_t real_fn = (fn_t)dlsym(RTLD_NEXT, "pthread_rwlock_rdlock");
+    if(!active() || !M) return real_fn(l);
+    return model_rw_lock(l, false, false);
+  }
+  int pthread_rwlock_tryrdlock(pthread_rwlock_t* l)
+  {
+    typedef int (*fn_t)(pthread_rwlock_t*); static fn_t real_fn = (fn_t)dlsym(RTLD_NEXT, "pthread_rwlock_tryrdlock");
+    if(!active() || !M) return real_fn(l);
+    return model_rw_lock(l, false, true);
+  }
+  int pthread_rwlock_wrlock(pthread_rwlock_t* l)
+  {
+    typedef int (*fn_t)(pthread_rwlock_t*); static fn_t real_fn = (fn_t)dlsym(RTLD_NEXT, "pthread_rwlock_wrlock");
+    if(!active() || !M) return real_fn(l);
+    return model_rw_lock(l, true, false);
+  }
+  int pthread_rwlock_trywrlock(pthread_rwlock_t* l)
+  {
+    typedef int (*fn_t)(pthread_rwlock_t*); static fn_t real_fn = (fn_t)dlsym(RTLD_NEXT, "pthread_rwlock_trywrlock");
+    if(!active() || !M) return real_fn(l);
+    return model_rw_lock(l, true, true);
+  }
+  int pthread_rwlock_unlock(pthread_rwlock_t* l)
+  {
+    typedef int (*fn_t)(pthread_rwlock_t*); static fn_t real_fn = (fn_t)dlsym(RTLD_NEXT, "pthread_rwlock_unlock");
+    if(!active() || !M) return real_fn(l);
+    {
+      ModelGuard g;
+      auto it = M->rw.find(l);
+      const int me = self();
+      if(it == M->rw.end() || (it->second.writer != me && !it->second.readers.count(me))) return real_fn(l);   // locked outside the model
+      RwState& s = it->second;
+      const VClock& vc = vclock();
+      if(s.writer == me) { s.writer = -1; s.vc_w = vc; s.has_w = true; }
+      else
+      {
+        s.readers.erase(me);
+        if(!s.has_r) { s.vc_r = vc; s.has_r = true; } else for(size_t i = 0; i < vc.size(); ++i) if(vc[i] > s.vc_r[i]) s.vc_r[i] = vc[i];
+      }
+      vc_tick();
+    }
+    yield("rwlock_unlock");
+    return 0;
+  }
+
+  // spin locks are mutexes for the model (a real spin would stall the baton)
+  int pthread_spin_lock(pthread_spinlock_t* l)
+  {
+    typedef int (*fn_t)(pthread_spinlock_t*); static fn_t real_fn = (fn_t)dlsym(RTLD_NEXT, "pthread_spin_lock");
+    if(!active() || !M) return real_fn(l);
+    return model_lock((pthread_mutex_t*)(void*)l, false, false);
+  }
+  int pthread_spin_trylock(pthread_spinlock_t* l)
+  {
+    typedef int (*fn_t)(pthread_spinlock_t*); static fn_t real_fn = (fn_t)dlsym(RTLD_NEXT, "pthread_spin_trylock");
+    if(!active() || !M) return real_fn(l);
+    return model_lock((pthread_mutex_t*)(void*)l, true, false);
+  }
+  int pthread_spin_unlock(pthread_spinlock_t* l)
+  {
+    typedef int (*fn_t)(pthread_spinlock_t*); static fn_t real_fn = (fn_t)dlsym(RTLD_NEXT, "pthread_spin_unlock");
+    if(!active() || !M) return real_fn(l);
+    bool known = false;
+    model_unlock((pthread_mutex_t*)(void*)l, &known);
+    if(!known) return real_fn(l);
+    yield("spin_unlock");
+    return 0;
   }
 
   int sched_yield(void)
